@@ -796,6 +796,32 @@ func postC19(res *RunResult) {
 				variants = append(variants, variant{name: fmt.Sprintf("subfields-of(%s,-%d rows)", sgNames[i], len(sgs[i])), data: vd, off: sgs[i]})
 			}
 		}
+		// rows that carry components of their own and that nothing refers to (event.data16, the
+		// compressed fields of record, ...), disabled one at a time while their destinations stay
+		var compSrc []genRow
+		for _, fr := range base {
+			if fr.Enabled && fr.HasComps && fr.Msg != "FileId" {
+				compSrc = append(compSrc, fr)
+			}
+		}
+		// quick tier: every such row of one workbook (which one rotates with the seed), one random row of
+		// the others; thorough tier: every row of every workbook
+		ncs := 1
+		allCS := res.Tier == "thorough" || sdk == bundledSDKs[int(res.Seed)%len(bundledSDKs)]
+		if allCS {
+			ncs = len(compSrc)
+		}
+		for v := 0; v < ncs && len(compSrc) > 0; v++ {
+			i := r.intn(len(compSrc))
+			if allCS {
+				i = v
+			}
+			if g := closedGroup(book, base, compSrc[i]); g != nil {
+				if vd, err := variantWorkbook(book, g); err == nil {
+					variants = append(variants, variant{name: fmt.Sprintf("component-source(%s.%s,-%d rows)", compSrc[i].Msg, compSrc[i].Name, len(g)), data: vd, off: g})
+				}
+			}
+		}
 		variants = append(variants, variant{name: "bundled -hrst", data: data, hrst: true})
 		for vi, v := range variants {
 			label := sdk + "/" + v.name
